@@ -149,6 +149,16 @@ Fixpoint ty_classes (T : ty) : list N :=
   | _ => []
   end.
 
+(* cattrs resolves the element / attribute handlers when it builds the hook for List[X], Dict[str, X]
+   and for a dataclass: a type without any hook fails there, whatever the data (even an empty list
+   or an absent key).  Optional[X] is served by the Union hook, which looks at X only when needed. *)
+Fixpoint eager_bad (T : ty) : bool :=
+  match T with
+  | TUuid | TTime | TFwd _ => true
+  | TList X | TDict X => eager_bad X
+  | _ => false
+  end.
+
 Definition replace_Z (s : str) : str :=       (* data.replace("Z", "+00:00") *)
   flat_map (fun c => if c =? 90 then [43; 48; 48; 58; 48; 48] else [c]) s.
 
@@ -215,7 +225,8 @@ Section Conv.
     | TDate => match date_parse s with Some c => Ok (VDate c) | None => Err end
     | TUuid | TTime | TFwd _ => Err              (* StructureHandlerNotFoundError (F03a, F03c) *)
     | TAny => Ok (VStr s)
-    | TList X => bind (map_result (fun c => structure_str X [c]) s) (fun l => Ok (VList l))
+    | TList X => if eager_bad X then Err
+                 else bind (map_result (fun c => structure_str X [c]) s) (fun l => Ok (VList l))
     | TDict _ => Err                             (* 'str' object has no attribute 'items' *)
     | TOpt X =>                                  (* _structure_union, data neither None nor dict *)
         match X with
@@ -229,6 +240,7 @@ Section Conv.
         | None => Err
         | Some k =>
             let hooked := mem_N c sreg in
+            if existsb (fun f => eager_bad (f_ty f)) (c_fields k) then Err else
             pack_fields c (map f_name (c_fields k))
               (map_result (fun f =>
                  match f_default f with
@@ -253,6 +265,7 @@ Section Conv.
     | Some k =>
         let hooked := mem_N c sreg in
         let names := map f_name (c_fields k) in
+        if existsb (fun f => eager_bad (f_ty f)) (c_fields k) then Err else
         match j with
         | JNull =>
             if hooked then Err       (* the registered hook's own None test *)
@@ -300,12 +313,14 @@ Section Conv.
     | TUuid | TTime | TFwd _ => Err
     | TAny => Ok (inject j)
     | TList X =>
+        if eager_bad X then Err else
         match j with
         | JArr _ => bind (map_result (fun kid => kid X) kl) (fun l => Ok (VList l))
         | JObj _ => bind (map_result (fun kv => structure_str X (fst kv)) kd) (fun l => Ok (VList l))
         | _ => Err
         end
     | TDict X =>
+        if eager_bad X then Err else
         match j with
         | JObj _ => bind (map_result (fun kv => bind (snd kv X) (fun v => Ok (fst kv, v))) kd)
                          (fun l => Ok (VDict l))
@@ -354,7 +369,7 @@ Section Conv.
                 | Some kid => bind (kid (f_ty f)) (fun j => Ok (dump_key k hooked (f_name f), j))
                 | None => Err                                     (* AttributeError *)
                 end) (c_fields k))
-             (fun kvs => Ok (JObj kvs))
+             (fun kvs => Ok (JObj (dict_of kvs)))   (* a dict display: a repeated key keeps its first position, last value *)
     end.
 
   Definition unstructure_nonopt (v : value) (kl : list (ty -> result json))
